@@ -18,7 +18,8 @@ yields under a neutral config: for every item its kind, file and the list of *de
 * `uq f fex cs`  — a call resolved through unqualified `USE`s: `cs` are the matching definitions of those
                    modules (filtered by the *global* disable list only, never by the caller's lists);
                    none left → the bare name `f = #p` (`fex`: a free procedure of that name exists);
-                   more than one → the code raises `UnboundLocalError` while building its message;
+                   more than one distinct → `RuntimeError` (before the `fix:` commit a procedure that is also named in
+                   an interface was listed twice and the code raised `UnboundLocalError` while building its message);
 * `imp m syms`   — `USE m, ONLY: …` of a known module with the `has_globalvar_import` logic.
 
 Not modelled (see `notes/C21.md`): bracket classes in fnmatch patterns, `_break_cycles` on mutually
@@ -188,6 +189,12 @@ def depsOf (A : Abs) (n : Name) : List DepNode :=
 
 /-! ## `create_from_ir` per dependency node -/
 
+/-- `tuple(dict.fromkeys(items))`: first occurrences, in order -/
+def dedup : List Name → List Name
+  | [] => []
+  | x :: xs => x :: (dedup xs).filter (fun y => y ≠ x)
+
+
 /-- tail of `_get_procedure_item`: the bare `#p` -/
 def freePath (cfg : Config) (ic : ItemConf) (f : Name) (fex : Bool) : Except Err (List Name) :=
   if ignored cfg ic f then .ok []
@@ -199,10 +206,12 @@ def nodeItems (cfg : Config) (ic : ItemConf) : DepNode → Except Err (List Name
   | .one n => .ok (if ignored cfg ic n then [] else [n])
   | .ext n => freePath cfg ic n false
   | .uq f fex cands =>
-    match cands.filter (fun c => !gIgnored cfg c) with
+    -- candidates de-duplicated (`tuple(dict.fromkeys(…))`, since the `fix:` commit for uq-interface-member);
+    -- several distinct ones: RuntimeError "defined in multiple imported modules"
+    match dedup (cands.filter (fun c => !gIgnored cfg c)) with
     | [] => freePath cfg ic f fex
     | [c] => .ok [c]
-    | _ => .error .unboundlocal
+    | _ => .error .runtime
   | .imp scope syms =>
     if ignored cfg ic scope then .ok []
     else
@@ -221,11 +230,6 @@ def nodesItems (cfg : Config) (ic : ItemConf) : List DepNode → Except Err (Lis
       match nodesItems cfg ic ds with
       | .error e => .error e
       | .ok ys => .ok (xs ++ ys)
-
-/-- `tuple(dict.fromkeys(items))`: first occurrences, in order -/
-def dedup : List Name → List Name
-  | [] => []
-  | x :: xs => x :: (dedup xs).filter (fun y => y ≠ x)
 
 /-- plain `match_item_keys(name, keys)` truthiness (no patterns, no parents) -/
 def plainMatch (n : Name) (keys : List Name) : Bool := matchesAny n keys false false
